@@ -28,7 +28,23 @@ Theorem C03_indent_canonical : forall level t1 t2,
 Proof. exact indent_canonical. Qed.
 Print Assumptions C03_indent_canonical.
 
-(* ---- Collada.save *)
+(* ---- Collada.save
+
+   Hypotheses of the theorems below.  [wf_libs]: the tags of the `libraries` list are distinct
+   and none is asset or scene - a fact about the constant list in save(), proved for every
+   model over the nine managed tags (C03_managed_tags_wf).  [single_asset]: the root has at
+   most one <asset> child.  This one is really needed: see C03_two_assets_refuted.  Nothing is
+   assumed about repeated libraries or <scene> elements: save() removes the former (modelled
+   by [dedupe]) and only ever touches the first of the latter. *)
+
+Theorem C03_managed_tags_wf : forall m, map ltag (mlibs m) = managed_tags -> wf_libs m.
+Proof.
+  intros m E. unfold wf_libs. rewrite E. split; [|split].
+  - apply nodup_b_ok. vm_compute. reflexivity.
+  - vm_compute. intuition discriminate.
+  - vm_compute. intuition discriminate.
+Qed.
+Print Assumptions C03_managed_tags_wf.
 
 (* saving - complete or interrupted, in any fault context - never changes what the user can
    see of the model (everything except the identity of recreated .xmlnode elements) *)
@@ -39,14 +55,14 @@ Print Assumptions C03_save_keeps_model.
 (* saving again without an edit in between: the whole state (tree and model) is a fixed point,
    hence so are the bytes of a write *)
 Theorem C03_save_idempotent : forall s s1,
-  wf_libs (smodel s) -> wf_root (smodel s) (stree s) ->
+  wf_libs (smodel s) -> single_asset (stree s) ->
   save s = (s1, Ok tt) -> save s1 = (s1, Ok tt).
 Proof. exact save_idempotent. Qed.
 Print Assumptions C03_save_idempotent.
 
 (* SPEC side of save: after a successful save the tree says what the model says *)
 Theorem C03_save_syncs : forall s s1,
-  wf_libs (smodel s) -> wf_root (smodel s) (stree s) -> save s = (s1, Ok tt) ->
+  wf_libs (smodel s) -> single_asset (stree s) -> save s = (s1, Ok tt) ->
   Forall (lib_synced (stree s1)) (mlibs (smodel s)) /\
   hd_error (stree s1) = Some (asset_el (smodel s)) /\
   exists c, find_tag a_scene (stree s1) = Some c /\ rsub c = 0%N /\
@@ -56,7 +72,7 @@ Print Assumptions C03_save_syncs.
 
 (* root children outside <asset>, the managed libraries and <scene> keep identity, order and
    subtree, whether the save completes or is interrupted *)
-Theorem C03_unmanaged_preserved : forall fc s, wf_root (smodel s) (stree s) ->
+Theorem C03_unmanaged_preserved : forall fc s,
   unmanaged_children (smodel s) (stree (fst (save_in fc s))) =
   unmanaged_children (smodel s) (stree s).
 Proof. exact unmanaged_preserved. Qed.
@@ -67,13 +83,13 @@ Print Assumptions C03_unmanaged_preserved.
    scene pointed anywhere), a complete save of it gives the state a complete save of the
    original gives *)
 Theorem C03_save_confluent : forall fc s,
-  wf_libs (smodel s) -> wf_root (smodel s) (stree s) -> healthy (smodel s) ->
+  wf_libs (smodel s) -> single_asset (stree s) -> healthy (smodel s) ->
   save (save_faulted fc s) = save s.
 Proof. exact save_confluent. Qed.
 Print Assumptions C03_save_confluent.
 
 Theorem C03_save_prefix_forgotten : forall u s,
-  wf_libs (smodel s) -> wf_root (smodel s) (stree s) -> healthy (smodel s) ->
+  wf_libs (smodel s) -> single_asset (stree s) -> healthy (smodel s) ->
   save (save_prefix u s) = save s.
 Proof. intros u s. apply save_confluent. Qed.
 Print Assumptions C03_save_prefix_forgotten.
@@ -100,7 +116,7 @@ Print Assumptions C03_failed_write_keeps_model.
    delivers when nothing was ever attempted, and the model is as it was.  (Induction over the
    history with the invariant "save gives what it gave at the start".) *)
 Theorem C03_write_after_failures : forall s es,
-  wf_libs (smodel s) -> wf_root (smodel s) (stree s) -> healthy (smodel s) ->
+  wf_libs (smodel s) -> single_asset (stree s) -> healthy (smodel s) ->
   healthy_bytes (run_events s es) = healthy_bytes s /\
   view (smodel (run_events s es)) = view (smodel s).
 Proof. exact write_after_failures. Qed.
@@ -153,10 +169,10 @@ Definition fail_cam (u : N) : faults := Faults (fun v => if N.eqb v u then Some 
 Definition bad_scene : faults := Faults (fun _ => None) (Some (Some (9, 2999))).
 
 Example C03_hypotheses_met :
-  wf_libs (smodel ex_state) /\ wf_root (smodel ex_state) (stree ex_state) /\ healthy (smodel ex_state).
+  wf_libs (smodel ex_state) /\ single_asset (stree ex_state) /\ healthy (smodel ex_state).
 Proof.
   split; [apply wf_libs_b_ok; vm_compute; reflexivity|].
-  split; [apply wf_root_b_ok; vm_compute; reflexivity|apply healthy_b_ok; vm_compute; reflexivity].
+  split; [apply single_asset_b_ok; vm_compute; reflexivity|apply healthy_b_ok; vm_compute; reflexivity].
 Qed.
 
 (* the attempts do fail, each leaves a different tree, none of them the saved one *)
@@ -195,4 +211,45 @@ Example C03_history_nonvacuous :
 Proof.
   vm_compute. repeat split; try reflexivity; try (intro H; discriminate H).
   eexists. split; reflexivity.
+Qed.
+
+(* repeated libraries (and a repeated <scene>) are within the theorems: the later
+   library_cameras goes, idempotence and confluence hold by the theorems above *)
+Definition ex_dup_state : state :=
+  St ex_model (ex_tree0 ++ [RC 40 a_library_cameras 0 [(41, 690)]; RC 42 a_scene 0 []; RC 43 a_library_lights 0 []]).
+Example C03_duplicate_libraries_nonvacuous :
+  wf_libs (smodel ex_dup_state) /\ single_asset (stree ex_dup_state) /\ healthy (smodel ex_dup_state) /\
+  count_tag a_library_cameras (stree ex_dup_state) = 2%nat /\
+  count_tag a_library_cameras (stree (fst (save ex_dup_state))) = 1%nat /\
+  count_tag a_library_lights (stree (fst (save ex_dup_state))) = 0%nat /\
+  save (save_faulted (fail_cam 3) ex_dup_state) = save ex_dup_state /\
+  stree (save_faulted (fail_cam 3) ex_dup_state) <> stree (fst (save ex_dup_state)).
+Proof.
+  split; [apply wf_libs_b_ok; vm_compute; reflexivity|].
+  split; [apply single_asset_b_ok; vm_compute; reflexivity|].
+  split; [apply healthy_b_ok; vm_compute; reflexivity|].
+  vm_compute. repeat split; try reflexivity. intro H; discriminate H.
+Qed.
+
+(* why [single_asset] stays: with two <asset> children, library_loc (the index after the LAST
+   one) moves when the failed attempt has removed the emptied library in front of it, so the
+   library the repaired save creates lands elsewhere.  The implementation does the same
+   (notes/C03.md). *)
+Definition ex_two_assets : state :=
+  St (Model 500 [Lib a_library_lights false []; Lib a_library_cameras true [Obj 2 2002 12 602];
+                 Lib a_library_effects false [Obj 4 2004 14 604]] None)
+     [RC 21 a_asset 499 []; RC 22 a_library_lights 0 [(30, 660)]; RC 23 a_asset 498 [];
+      RC 24 a_library_cameras 0 [(12, 602)]; RC 25 a_scene 0 []].
+Example C03_two_assets_refuted :
+  wf_libs (smodel ex_two_assets) /\ healthy (smodel ex_two_assets) /\ ~ single_asset (stree ex_two_assets) /\
+  snd (save_in (fail_cam 2) ex_two_assets) = Raise DaeMalformed /\
+  map rtag (stree (fst (save ex_two_assets))) =
+    [a_asset; a_asset; a_library_cameras; a_library_effects; a_scene] /\
+  map rtag (stree (fst (save (save_faulted (fail_cam 2) ex_two_assets)))) =
+    [a_asset; a_asset; a_library_effects; a_library_cameras; a_scene].
+Proof.
+  split; [apply wf_libs_b_ok; vm_compute; reflexivity|].
+  split; [apply healthy_b_ok; vm_compute; reflexivity|].
+  split; [unfold single_asset; vm_compute; intro H; inversion H as [|? H1]; inversion H1|].
+  vm_compute. repeat split; reflexivity.
 Qed.
